@@ -56,10 +56,18 @@ SKELS = [
 BLOCKS = ('if', 'in', 'unless', 'with', 'let', 'try', 'comment')
 
 
-def spell(part, style):
-    """style: 0 dtml, 1 SSI with /, 2 SSI with end, 3 EPFS"""
+INNER_WS = [' ', '  ', '\t', '\n   ', ' \r\n ', ' \n']
+
+
+def spell(part, style, ws=' ', tail=''):
+    """style: 0 dtml, 1 SSI with /, 2 SSI with end, 3 EPFS; ws: the white space between name and arguments,
+    tail: white space before the tag's closing delimiter"""
     name = part.split()[0].lstrip('/')
     args = part[len(part.split()[0]):]
+    if args:
+        args = ws + args.strip() + tail
+    elif style != 3:
+        args = tail
     closing = part.startswith('/')
     if style == 3:
         if closing:
@@ -76,8 +84,9 @@ def spell(part, style):
     return '<!--#%s%s-->' % (name, args)
 
 
-def fill(skel, style, texts, eols):
-    out, ti, ei = [], 0, 0
+def fill(skel, style, texts, eols, ws=None):
+    """ws: None (single blanks) or a list of (inner white space, tail) per tag, cycled"""
+    out, ti, ei, wi = [], 0, 0, 0
     for p in skel:
         if p == 'T':
             out.append(texts[ti % len(texts)])
@@ -85,6 +94,9 @@ def fill(skel, style, texts, eols):
         elif p == 'E':
             out.append(eols[ei % len(eols)])
             ei += 1
+        elif ws:
+            out.append(spell(p, style, *ws[wi % len(ws)]))
+            wi += 1
         else:
             out.append(spell(p, style))
     return ''.join(out)
@@ -113,6 +125,14 @@ def skeleton_cases(tier, rng):
                 texts = [rng.choice(TEXTS) + rng.choice(('', '', rng.choice(NEAR))) for _ in range(nt)]
                 eols = [rng.choice(EOLS) for _ in range(ne)]
                 out.append((syn_of(style), fill(sk, style, texts, eols)))
+            # white space inside the tags themselves (runs of blanks, tabs, line breaks with indentation, before the closing
+            # delimiter): the text after such a tag must still start exactly behind it
+            for w in INNER_WS:
+                for tail in ('', ' ', '\n'):
+                    texts = [rng.choice(TEXTS) for _ in range(nt)]
+                    eols = [rng.choice(EOLS[:6]) for _ in range(ne)]
+                    out.append((syn_of(style), fill(sk, style, texts, eols, [(w, tail), (' ', '')])))
+                    out.append((syn_of(style), fill(sk, style, texts, eols, [(rng.choice(INNER_WS), rng.choice(('', ' '))) for _ in range(5)])))
     cases = []
     for j, (syn, src) in enumerate(out):
         for e in (ENVS if j % 3 == 0 else ENVS[j % 3:j % 3 + 1]):
